@@ -1005,8 +1005,10 @@ func hashBuilderRegistration(b BuilderRegistration, hh ssz.HashWalker) error {
 func hashRegistration(r Registration, hh ssz.HashWalker) error {
 	indx := hh.Index()
 
-	// Field (0) 'FeeRecipient'
-	hh.PutBytes(r.FeeRecipient)
+	// Field (0) 'FeeRecipient' Bytes20
+	if err := putBytesN(hh, r.FeeRecipient, addressLen); err != nil {
+		return err
+	}
 
 	// Field (1) 'GasLimit' uint64
 	hh.PutUint64(uint64(r.GasLimit))
